@@ -6,6 +6,7 @@
 from typing import List, Set, Tuple, Dict
 from natsort import natsorted
 import collections
+import functools
 import os
 
 from . import lpinterface
@@ -54,7 +55,7 @@ def estimate_minor(
     mutations |= gene.random_mutations
 
     # Filter out low quality mutations
-    def default_filter_fn(cov, mut):
+    def default_filter_fn(cn_sol, cov, mut):
         # TODO: is this necessary?
         r = gene.region_at(mut.pos)
         if mut.op != "_" and not (
@@ -66,32 +67,39 @@ def estimate_minor(
         cond = cov.basic_filter(mut, cn=coverage.profile.cn_max)
         if mut.op != "_":
             cond = cond and cov.basic_filter(
-                mut, cn=major_sol.cn_solution.position_cn(mut.pos) + 0.5
+                mut, cn=cn_sol.position_cn(mut.pos) + 0.5
             )
         return cond
 
-    cov = coverage.filtered(Coverage.quality_filter)
-    cov = cov.filtered(default_filter_fn)
+    # Each gene structure gets its own filtered coverage: the threshold depends on
+    # the structure's copy number and must not depend on the other candidates.
+    cn_sols = {m.cn_solution for m in major_sols}
+    quality_cov = coverage.filtered(Coverage.quality_filter)
+    covs = {
+        c: quality_cov.filtered(functools.partial(default_filter_fn, c))
+        for c in cn_sols
+    }
 
     if novel:
-        for pos, c in cov._coverage.items():
-            for m in c:
-                if m != "_" and Mutation(pos, m) not in mutations:
-                    r = gene.region_at(pos)
-                    log.info(
-                        "[minor] novel {} ({}; coverage= {:.0f}; func= {})",
-                        r[1] if r else "-",
-                        cov.percentage(Mutation(pos, m)),
-                        gene.is_functional((pos, m)),
-                    )
-                    mutations.add(Mutation(pos, m))
+        for cov in covs.values():
+            for pos, c in cov._coverage.items():
+                for m in c:
+                    if m != "_" and Mutation(pos, m) not in mutations:
+                        r = gene.region_at(pos)
+                        log.info(
+                            "[minor] novel {} ({}; coverage= {:.0f}; func= {})",
+                            r[1] if r else "-",
+                            cov.percentage(Mutation(pos, m)),
+                            gene.is_functional((pos, m)),
+                        )
+                        mutations.add(Mutation(pos, m))
 
     # Group by CN solutions
     minor_sols: List[MinorSolution] = []
-    cn_sols = {m.cn_solution for m in major_sols}
     min_score = min(m.score for m in major_sols)
     for c in sorted(cn_sols, key=lambda x: x._solution_nice()):
         log.debug("*" * 80)
+        cov = covs[c]
         majors = [m for m in major_sols if m.cn_solution == c]
         _print_candidates(gene, alleles, c, cov, mutations)
         for major_sol in natsorted(majors, key=lambda s: str(s.solution)):
